@@ -4,7 +4,7 @@
    bytes = list N; pver = negotiated protocol version; ebs = the configured excessive block size
    (maxMessagePayload = max_message_payload ebs); net = the network magic. *)
 From Coq Require Import NArith ZArith List Bool.
-From BHS Require Import Sha256 WireBase WireBaseProofs WireMsg WireMsgProofs WireFrame WireSpec WireSpecProofs WireFrameProofs WireLenProofs.
+From BHS Require Import Sha256 WireBase WireBaseProofs WireMsg WireMsgProofs WireFrame WireSpec WireSpecProofs WireFrameProofs.
 Import ListNotations.
 Open Scope N_scope.
 
@@ -40,21 +40,6 @@ Theorem C14_frame_roundtrip : forall pver net ebs m fr rest,
   write_message pver net ebs m = Ok fr ->
   read_message pver net ebs (fr ++ rest) = FOk m (enc_payload pver m) rest.
 Proof. exact frame_roundtrip. Qed.
-
-(* a well-formed message never exceeds the MaxPayloadLength of its type (reject: its limit is the global one) *)
-Theorem C14_payload_len_le_max : forall pver mmp ebs m,
-  wf_msg pver mmp m = true -> kind_of m <> KReject ->
-  len (enc_payload pver m) <= max_payload (kind_of m) pver ebs.
-Proof. exact payload_len_le_max. Qed.
-
-(* hence WriteMessage does not refuse it, and write-then-read returns it, whenever the global maximum is
-   not below the type's limit (holds for cmd/main.go's limits: WireLenProofs.write_ok_example) *)
-Theorem C14_frame_roundtrip_total : forall pver net ebs m rest,
-  net < 2 ^ 32 -> wf_msg pver (max_message_payload ebs) m = true -> kind_of m <> KReject ->
-  max_payload (kind_of m) pver ebs <= max_message_payload ebs ->
-  exists fr, write_message pver net ebs m = Ok fr /\
-             read_message pver net ebs (fr ++ rest) = FOk m (enc_payload pver m) rest.
-Proof. exact frame_roundtrip_total. Qed.
 
 (* ---- rejection, for every byte string ---- *)
 Theorem C14_must_reject : forall pver net ebs bs,
@@ -131,8 +116,6 @@ Print Assumptions C14_decode_encode.
 Print Assumptions C14_reencode.
 Print Assumptions C14_reencode_canonical.
 Print Assumptions C14_frame_roundtrip.
-Print Assumptions C14_payload_len_le_max.
-Print Assumptions C14_frame_roundtrip_total.
 Print Assumptions C14_must_reject.
 Print Assumptions C14_reject_oversize.
 Print Assumptions C14_reject_wrong_magic.
